@@ -1,6 +1,7 @@
 """C16 — Editor positions and byte offsets convert exactly in both directions (unit discipline only)."""
 from facts import callee_of
 import pathrules as P
+import mirflow as MF
 import units as U
 
 EXPLANATION = (
@@ -226,7 +227,128 @@ def r5_same_text(c, facts):
     c15.changes_in_order(c, facts, R)
 
 
+def r8_encoding(c, facts, rule='C16.R8'):
+    """lsp::unicode counts UTF-16 code units, whatever the client offers: the encoding the server announces is that
+    constant, never a value taken from the client's list"""
+    R = c.rule(rule, 'ENCODING: the position encoding announced to the client is the constant UTF-16 the conversions implement')
+    fn = None
+    for f in facts.fns.values():
+        if f.mir and f.crate == 'oal_lsp' or (f.mir and f.qname.startswith('oal_client::lsp')):
+            for b, blk in f.blocks():
+                for st in blk['stmts']:
+                    if st['s'] == 'assign' and st['rv']['r'] == 'aggr' and 'position_encoding' in (st['rv'].get('fields') or []):
+                        fn = (f, st)
+    if fn is None:
+        c.bad(R, 'capabilities-shape', 'no ServerCapabilities value with a position_encoding is built any more')
+        return
+    f, st = fn
+    op = st['rv']['ops'][st['rv']['fields'].index('position_encoding')]
+    idx = MF.defs_index(f)
+    sl = MF.slice_back(f, op['l'], idx) if 'l' in op else {'calls': [], 'consts': [op], 'args': set()}
+    names = sorted({P.strip(n).split('::')[-1] for n, _, _ in sl['calls']})
+    ks = sorted({str(k.get('d') or k.get('val')) for k in sl['consts'] if 'PositionEncodingKind' in (k.get('ty') or '')})
+    inst = {'fn': f.qname, 'constants': ks, 'calls': names}
+    if names or sl['args']:
+        c.bad(R, 'position-encoding-computed', 'the announced position encoding is computed (%s) instead of being the constant the conversions implement: a client that prefers another encoding is promised it while lsp::unicode counts UTF-16 units' % (names or 'from a parameter'), **inst)
+    elif len(ks) == 1 and ks[0].endswith('UTF16'):
+        c.ok(R, inst)
+    else:
+        c.bad(R, 'position-encoding-not-utf16:%s' % ','.join(ks), 'the server announces %s while lsp::unicode converts with UTF-16 code units' % ks, **inst)
+
+
+def _origin(fn, op, idx, depth=0):
+    """(base local, field names) a moved / copied operand comes from, following plain copies"""
+    if 'l' not in op:
+        return None
+    fp = tuple(x for x in MF.field_path(op) if not x.startswith('<'))
+    if fp:
+        return (op['l'], fp)
+    if depth > 6:
+        return (op['l'], ())
+    defs = idx.get(op['l'], [])
+    if len(defs) == 1 and defs[0][0] == 'assign' and defs[0][2]['rv']['r'] in ('use', 'ref') :
+        rv = defs[0][2]['rv']
+        src = rv['op'] if rv['r'] == 'use' else dict(rv['place'], o='copy')
+        return _origin(fn, src, idx, depth + 1)
+    return (op['l'], ())
+
+
+def r9_location_pair(c, facts, rule='C16.R9'):
+    """A Location is (document, range in that document): the range was converted against that document's text.  An edit
+    must be filed under the URI of the Location its range came from."""
+    R = c.rule(rule, 'LOCATION-PAIR: a text edit is filed under the document its range was computed for')
+    n = 0
+    # rename_qualifier is left out on purpose: a qualifier and its uses live in one module, so filing all its edits
+    # under the definition's document is the same program
+    for q in ('oal_client::lsp::handlers::rename_variable',):
+        fn = c.anchor(R, q)
+        idx = MF.defs_index(fn)
+        for b, t in P.call_blocks(fn, 'TextEdit::new'):
+            ro = _origin(fn, t['args'][0], idx)
+            if not ro or ro[1][-1:] != ('range',):
+                c.bad(R, '%s:edit-range-not-from-location' % q.split('::')[-1], '%s builds an edit whose range is not the range of a Location' % q)
+                continue
+            n += 1
+            derived, calls = MF.forward_uses(fn, t['dest']['l'])
+            # `vec![edit]`: the edit is written through a pointer into a fresh allocation; follow the allocation
+            work = True
+            while work:
+                work = False
+                for _, blk in fn.blocks():
+                    for st2 in blk['stmts']:
+                        if st2['s'] == 'assign' and st2['place']['proj'] and st2['place']['proj'][0]['p'] == 'deref' and st2['place']['l'] in derived:
+                            for l2 in MF.slice_back(fn, st2['place']['l'], idx, through_calls=False)['locals']:
+                                if l2 not in derived:
+                                    d2, c2 = MF.forward_uses(fn, l2)
+                                    derived |= d2
+                                    calls += c2
+                                    work = True
+                for name, ct, cb, ai in list(calls):
+                    if 'into_vec' in name and ct['dest']['l'] not in derived:
+                        d2, c2 = MF.forward_uses(fn, ct['dest']['l'])
+                        derived |= d2
+                        calls += c2
+                        work = True
+            keys = []
+            for name, ct, cb, ai in calls:
+                nm = P.strip(name).split('::')[-1]
+                if nm == 'push' and ai == 1:
+                    sl = MF.slice_back(fn, ct['args'][0]['l'], idx)
+                    for n2, t2, _ in sl['calls']:
+                        if P.strip(n2).split('::')[-1] == 'entry' and len(t2['args']) > 1:
+                            keys.append(t2['args'][1])
+                elif nm == 'insert' and ai >= 1 and 'Vacant' in name and False:
+                    pass
+            # vec![edit] handed to HashMap::insert / VacantEntry::insert
+            for name, ct, cb, ai in calls:
+                pass
+            for b2, t2 in fn.calls():
+                info = callee_of(t2)
+                if not info:
+                    continue
+                nm = P.strip(info['def']).split('::')[-1]
+                if nm == 'insert' and t2['args'] and any(a.get('l') in derived for a in t2['args'] if 'l' in a):
+                    if 'VacantEntry' in info['def']:
+                        sl = MF.slice_back(fn, t2['args'][0]['l'], idx)
+                        for n2, t3, _ in sl['calls']:
+                            if P.strip(n2).split('::')[-1] == 'entry' and len(t3['args']) > 1:
+                                keys.append(t3['args'][1])
+                    elif len(t2['args']) > 2:
+                        keys.append(t2['args'][1])
+            ko = {_origin(fn, k, idx) for k in keys}
+            inst = {'fn': q, 'range_of': 'local %d' % ro[0], 'filed_under': sorted('local %d.%s' % (o[0], '.'.join(o[1])) for o in ko if o)}
+            if not ko:
+                c.bad(R, '%s:edit-not-filed' % q.split('::')[-1], '%s builds an edit that is not stored under any document' % q, **inst)
+            elif all(o and o[0] == ro[0] and o[1][-1:] == ('uri',) for o in ko):
+                c.ok(R, inst)
+            else:
+                c.bad(R, '%s:edit-filed-under-another-document' % q.split('::')[-1], '%s files an edit under a URI that is not the one of the Location its range belongs to: the range was converted against another document\'s text' % q, **inst)
+    c.floor(R, 'text edits built by rename_variable', n, 2)
+
+
 def run(c, facts):
+    c.run(r8_encoding, facts)
+    c.run(r9_location_pair, facts)
     import c15
     R6 = c.rule('C16.R6', 'SAME-VERSION: the spans and the text of a conversion belong to the same version of the document: every notification marks the trees stale, didOpen overwrites, didClose forgets (shared with C15.R1/R6)')
     c.shared(R6, c15.r1_set_stale, 'C15.R1', facts)
